@@ -183,7 +183,12 @@ def build_change(project, spec, tree_before=None):
         elif k == "move":
             isdir = (s[1] + "/" in t) if t is not None else os.path.isdir(os.path.join(project.address, s[1]))
             res = project.get_folder(s[1]) if isdir else project.get_file(s[1])
-            c = ch.MoveResource(res, s[2], exact=True)
+            parent = os.path.dirname(s[2])
+            if len(s) > 3 and s[3] == "into" and os.path.basename(s[2]) == os.path.basename(s[1]) and os.path.isdir(os.path.join(project.address, parent)):
+                # the destination is given as the (existing) folder to move into, '' being the root
+                c = ch.MoveResource(res, parent)
+            else:
+                c = ch.MoveResource(res, s[2], exact=True)
         elif k == "rm":
             isdir = (s[1] + "/" in t) if t is not None else os.path.isdir(os.path.join(project.address, s[1]))
             res = project.get_folder(s[1]) if isdir else project.get_file(s[1])
@@ -280,6 +285,11 @@ def leaf_for(draw, t, counter, allow_rm=True, recent=None):
         if cands:
             src = pick(cands)
             parents = [d for d in [""] + dirs if d != src and not d.startswith(src + "/")]
+            keep = os.path.basename(src)
+            into = [d for d in parents if d != os.path.dirname(src) and not _exists(t, (d + "/" + keep) if d else keep)]
+            if into and draw(st.integers(0, 2)) == 0:
+                parent = pick(into)
+                return ["move", src, (parent + "/" + keep) if parent else keep, "into"]
             parent = pick(parents)
             base = "mv%d" % n + ("" if src + "/" in t else ".py")
             return ["move", src, (parent + "/" + base) if parent else base]
